@@ -55,11 +55,22 @@ pub fn cluster_properties() -> Vec<PropertyConfig> {
         },
         PropertyConfig {
             id: "C03",
-            profiles: &[Dag, Dag, Fail, Cancel, Restore],
+            profiles: &[Dag, Dag, Fail, Cancel, Restore, Restore],
             quick_runs: 12_000,
             thorough_runs: 300_000,
             triggers: &["dependent_aborted", "submit_on_dead_dependency"],
-            rule: "DAG-heavy workloads; non-trivial = a dependent was aborted/canceled because of a dead dependency, or a dependent was submitted on a dead task",
+            rule: "DAG-heavy workloads; server restarts in the middle of the DAG (crash actions, and in one of 12 runs a sweep over every record boundary of the final journal: no dependent of a task whose failure/cancel is recorded may come back runnable); non-trivial = a dependent was aborted/canceled because of a dead dependency, or a dependent was submitted on a dead task",
+            force_journal: None,
+            sweep_one_in: Some(12),
+            sweep_interior: 0,
+        },
+        PropertyConfig {
+            id: "C04",
+            profiles: &[Fail, Cancel, Kill, General, Retract],
+            quick_runs: 8_000,
+            thorough_runs: 300_000,
+            triggers: &["launches"],
+            rule: "worker part of C04: real worker state machines in cluster runs with launch failures, cancels, kills, time limits and prefilled backlogs; after every step the allocator snapshot of every worker is compared with the allocations of its running tasks (exclusive, exact, conserved: free + held == total, nothing stays taken when no task runs); non-trivial = at least one launch",
             force_journal: None,
             sweep_one_in: None,
             sweep_interior: 0,
